@@ -14,6 +14,19 @@ Definition na (e : expr) : bool := match e with EAssign _ _ => false | _ => true
 Definition lits_closed (m : smap) : Prop :=
   forall y a, rec_get m y = Some a -> (forall b, free_vars a b = []) /\ na a = true.
 
+Lemma concat_ast_closed l : forall acc b, free_vars acc b = [] -> free_vars (concat_ast acc l) b = [].
+Proof.
+  induction l as [|p l IH]; intros acc b H; cbn [concat_ast]; [exact H|].
+  apply IH. cbn [free_vars]. now rewrite H.
+Qed.
+Lemma concat_ast_na l : forall acc, na acc = true -> na (concat_ast acc l) = true.
+Proof. induction l as [|p l IH]; intros acc H; cbn [concat_ast]; [exact H|]. apply IH. reflexivity. Qed.
+Lemma str_to_ast_closed s b : free_vars (str_to_ast s) b = [] /\ na (str_to_ast s) = true.
+Proof.
+  unfold str_to_ast. destruct (both_quotes s); [|split; reflexivity].
+  destruct (split_dq s ""); [split; reflexivity|]. split; [apply concat_ast_closed|apply concat_ast_na]; reflexivity.
+Qed.
+
 Lemma fv_do_nil a ret t b : free_vars (EDo [] (Cm a ret t)) b = free_vars ret b.
 Proof. reflexivity. Qed.
 Lemma fv_do_cons_na a s t l R b : na s = true ->
@@ -35,6 +48,7 @@ Lemma subst_na m s : lits_closed m -> na s = true -> na (subst true m s) = true.
 Proof.
   intros Hm Hs. destruct s; try reflexivity; try discriminate.
   - cbn. destruct (rec_get m x) eqn:E; [apply (Hm x e E)|reflexivity].
+  - cbn. destruct (rec_get m "inputs"); [destruct (is_valid_identifier x)|]; reflexivity.
   - cbn. destruct ret. reflexivity.
 Qed.
 
@@ -82,6 +96,12 @@ Proof.
     + cbn [free_vars]. destruct (mem x bound || _ || _ || _)%bool eqn:C; [intros []|].
       intros [<-|[]]. repeat split; auto. now left.
       apply orb_false_elim in C as [C _]. apply orb_false_elim in C as [C _]. apply orb_false_elim in C as [C _]. exact C.
+  - (* input reference: `inputs.field` with `inputs` inlined, or left in place *)
+    cbn [subst]. destruct (rec_get m "inputs") eqn:E.
+    + destruct (is_valid_identifier x); cbn [free_vars]; rewrite (proj1 (Hm _ e E) bound);
+        [|rewrite (proj1 (str_to_ast_closed x bound))]; intros [].
+    + cbn [free_vars]. destruct (mem "inputs" bound) eqn:C; [intros []|].
+      intros [<-|[]]. repeat split; auto. now left.
   - (* list *)
     cbn [subst].
     cbn [free_vars]. induction H as [|[a n t] l Hn Hl IH]; [intros []|].
@@ -176,18 +196,6 @@ Proof.
 Qed.
 
 (* ---- literals of first-order values are closed (and are not assignments) ---- *)
-Lemma concat_ast_closed l : forall acc b, free_vars acc b = [] -> free_vars (concat_ast acc l) b = [].
-Proof.
-  induction l as [|p l IH]; intros acc b H; cbn [concat_ast]; [exact H|].
-  apply IH. cbn [free_vars]. now rewrite H.
-Qed.
-Lemma concat_ast_na l : forall acc, na acc = true -> na (concat_ast acc l) = true.
-Proof. induction l as [|p l IH]; intros acc H; cbn [concat_ast]; [exact H|]. apply IH. reflexivity. Qed.
-Lemma str_to_ast_closed s b : free_vars (str_to_ast s) b = [] /\ na (str_to_ast s) = true.
-Proof.
-  unfold str_to_ast. destruct (both_quotes s); [|split; reflexivity].
-  destruct (split_dq s ""); [split; reflexivity|]. split; [apply concat_ast_closed|apply concat_ast_na]; reflexivity.
-Qed.
 
 Lemma lit_closed_fo nanfix v : fo v = true -> (nanfix = true \/ has_nan v = false) ->
   forall bb, free_vars (value_to_ast nanfix true v) bb = [] /\ na (value_to_ast nanfix true v) = true.
